@@ -51,6 +51,31 @@ fn main() {
             unsafe {
                 libc::prctl(libc::PR_SET_PDEATHSIG, libc::SIGKILL);
             }
+            // hang monitor: counts seconds (sleeping, never reading a clock - the wall-clock seam may be
+            // bending the clock at that moment) during which the same execution of the same run is still going
+            std::thread::spawn(|| {
+                use std::sync::atomic::Ordering;
+                let limit = engine::run_limit_s();
+                let mut last = (0u64, u64::MAX);
+                let mut ticks = 0u64;
+                loop {
+                    std::thread::sleep(Duration::from_secs(1));
+                    let cur = (engine::RUN_SEQ.load(Ordering::Relaxed), engine::RUN_IDX.load(Ordering::Relaxed));
+                    if cur == last && cur.1 != u64::MAX {
+                        ticks += 1;
+                        if ticks >= limit {
+                            use std::io::Write;
+                            let _ = writeln!(std::io::stdout(), "IDX {}", cur.1);
+                            let _ = writeln!(std::io::stdout(), "HANG {}", cur.1);
+                            let _ = std::io::stdout().flush();
+                            std::process::exit(4);
+                        }
+                    } else {
+                        last = cur;
+                        ticks = 0;
+                    }
+                }
+            });
             let cap = p(8);
             std::thread::spawn(move || {
                 std::thread::sleep(Duration::from_secs(cap + 300));
